@@ -5,8 +5,8 @@
   every occurrence of the configured line ending; the canonical position of a
   byte offset is (offset, number of line endings wholly before it, display
   width of the text since the last line ending, tabs advancing to the next tab
-  stop).  All navigation specs (C19), line specs (C18) and window specs (C20)
-  are stated over the table `lineTable`.
+  stop).  Navigation (C19), line (C18) and window (C20) statements are written
+  over a *cut* `t = pre ++ suf` of the text at an aligned offset.
 -/
 import TephraModel.Metrics
 
@@ -48,10 +48,7 @@ def aligned (m : Metrics) (pre suf : Text) : Bool :=
   match m.le with
   | .crlf =>
     match pre.getLast?, suf.head? with
-    | some a, some b =>
-      -- the CR must itself start a break in the left-to-right cut, i.e. the cut
-      -- `pre.dropLast ++ (a :: suf)` has a break at its head
-      !(a.code == 13 && b.code == 10)
+    | some a, some b => !(a.code == 13 && b.code == 10)
     | _, _ => true
   | _ => true
 
@@ -60,32 +57,15 @@ def cuts : Text → List (Text × Text)
   | [] => [([], [])]
   | c :: rest => ([], c :: rest) :: (cuts rest).map (fun (p, s) => (c :: p, s))
 
-/-- Aligned cuts only. -/
-def alignedCuts (m : Metrics) (t : Text) : List (Text × Text) :=
-  (cuts t).filter (fun (p, s) => aligned m p s)
-
-/-- `Canon m t p`: `p` is the canonical position of an aligned offset of `t`. -/
-def isCanon (m : Metrics) (t : Text) (p : Pos) : Bool :=
-  (alignedCuts m t).any (fun (pre, _) => canon m pre == p)
-
 /-- The aligned cut at byte `b`, if `b` is an aligned boundary. -/
 def cutAt (m : Metrics) (t : Text) (b : Nat) : Option (Text × Text) :=
-  (alignedCuts m t).find? (fun (pre, _) => bytes pre == b)
+  (cuts t).find? (fun (pre, suf) => bytes pre == b && aligned m pre suf)
 
 /-- Canonical position of byte `b` (none: not an aligned boundary of `t`). -/
 def canonAt (m : Metrics) (t : Text) (b : Nat) : Option Pos :=
   (cutAt m t b).map (fun (pre, _) => canon m pre)
 
-/-- Line table: for each line its (start byte, end byte) — the end excludes the
-line ending. -/
-def lineTable (m : Metrics) (t : Text) : List (Nat × Nat) :=
-  let rec go (start : Nat) : List Text → List (Nat × Nat)
-    | [] => []
-    | l :: ls => (start, start + bytes l) :: go (start + bytes l + lbLen m) ls
-  go 0 (linesOf m t)
-
-/-- Index of the line containing aligned byte `b`. -/
-def lineIndexOf (m : Metrics) (t : Text) (b : Nat) : Option Nat :=
-  (lineTable m t).findIdx? (fun (s, e) => s ≤ b && b ≤ e)
+/-- `p` is the canonical position of an aligned offset of `t`. -/
+def isCanon (m : Metrics) (t : Text) (p : Pos) : Bool := canonAt m t p.byte == some p
 
 end Tephra.Spec
